@@ -36,6 +36,26 @@ CHECKS = {
    text="For every query with <=K fields (K=5 quick, 6 thorough) on list-heavy worlds: HTTP calls per service <= plan levels containing the service, identical for list lengths 1..20, no identical id-only lookup twice in one batched call, and with duplicate entities the answer still equals the reference.",
    note="Operations through the root node() entry point are excluded (mis-planned, see C01 findings). One Query call = one HTTP call at batch size 3000.",
    ref="DESIGN.md §6 C12"),
+ "C07": dict(engine="enum", cat="exploration",
+   technique="exhaustive enumeration of request grammars (all byte strings up to a length over a JSON-structure alphabet, all JSON trees up to a node count, content types, multipart layouts over a path alphabet, valid operations on corner-case schemas) against the real handler in crash-isolating worker processes with a three-valued status reference",
+   text="Every body in the enumerated grammars must be answered (no panic: a worker death is attributed to the request in flight), with JSON carrying data and/or errors, with status 422 exactly when the request cannot be decoded and 200 when it is a standard well-formed shape (grey zone: either), and the gateway must still answer a canonical follow-up request correctly.",
+   note="Trusted: the three-valued reference classifier in harness/a/c07.go; bounds: length<=5 (6 thorough) over an 11-symbol alphabet, JSON trees <=5 (6) nodes, maps with <=2 files x <=2 paths over 18 paths.",
+   ref="DESIGN.md §6 C07"),
+ "C09": dict(engine="enum", cat="fault_enumeration",
+   technique="exhaustive fault enumeration: every fault kind of a 23-symbol alphabet at every (downstream call, batch position) of every operation in a bounded corpus (thorough: ordered pairs), run against the real gateway in crash-isolating workers",
+   text="For every operation with <=3 fields on 14 (quick) worlds/configurations and every single fault position: process alive, well-formed envelope, failure signals yield non-empty errors, no value appears in data that no service returned (taint), and a follow-up request on the same gateway equals its reference.",
+   note="Hang detection is delegated to Engine B; root node() operations excluded; single faults (pairs in thorough).",
+   ref="DESIGN.md §6 C09"),
+ "C10": dict(engine="enum", cat="exploration",
+   technique="exhaustive enumeration of single invalidating mutations (19 kinds at every position) of every valid operation in the bound, plus exhaustive injection of GraphQL error payloads at every downstream call position",
+   text="Part 1: no invalid operation (by gqlparser on the merged schema, or unknown/ambiguous operation name) causes any downstream request; it is answered 200 with errors and data:null. Part 2: every downstream GraphQL error (unicode message, nested extensions, path, locations) injected at any call/position appears in the client's errors with equal message, extensions and path.",
+   note="Trusted: gqlparser validator as the definition of invalid; service request logs.",
+   ref="DESIGN.md §6 C10"),
+ "C19": dict(engine="enum", cat="exploration",
+   technique="exhaustive enumeration of multipart layouts (operation count x variable-tree shape x file map x contents x owning services) through the real handler, with the multipart requests received by the in-memory services re-parsed and compared",
+   text="For each of ~550 (quick) layouts: every service sub-request that declares the file variable is multipart and maps the same variable path to the same file name and bytes, sub-requests that do not use the variable carry no file, and data equals the reference (single-operation layouts).",
+   note="Memory-level interference between two services reading one file is a recorded finding, not decided by schedule exploration.",
+   ref="DESIGN.md §6 C19"),
 }
 
 NOT_YET = {}
